@@ -421,6 +421,8 @@ mod inner {
     impl<'a> State {
         /// creates iterator over remaining elements
         pub(crate) fn items_iter(&'a self) -> ArgsIter<'a> {
+            #[cfg(bpaf_verif)]
+            crate::verif::tick();
             ArgsIter {
                 args: self,
                 cur: self.scope.start,
@@ -428,11 +430,56 @@ mod inner {
         }
 
         pub(crate) fn remove(&mut self, index: usize) {
+            #[cfg(bpaf_verif)]
+            if !(self.scope.contains(&index) && self.item_state[index].present()) {
+                crate::verif::record(crate::verif::Event::RemoveIgnored { index });
+            }
             if self.scope.contains(&index) && self.item_state[index].present() {
                 self.current = Some(index);
                 self.remaining -= 1;
                 self.item_state[index] = ItemState::Parsed;
             }
+            #[cfg(bpaf_verif)]
+            self.verif_check("remove");
+        }
+
+        /// Compare cached bookkeeping with the per-item ledger
+        #[cfg(bpaf_verif)]
+        pub(crate) fn verif_check(&self, site: &'static str) {
+            crate::verif::ledger_checked();
+            if self.scope.end > self.items.len() || self.item_state.len() != self.items.len() {
+                crate::verif::record(crate::verif::Event::ShapeMismatch {
+                    site,
+                    scope_end: self.scope.end,
+                    items: self.items.len(),
+                    ledger: self.item_state.len(),
+                });
+                return;
+            }
+            let counted = self.item_state[self.scope()]
+                .iter()
+                .filter(|i| i.present())
+                .count();
+            if counted != self.remaining {
+                crate::verif::record(crate::verif::Event::LedgerMismatch {
+                    site,
+                    cached: self.remaining,
+                    counted,
+                });
+            }
+        }
+
+        /// Snapshot of the per-item ledger: 0 - unparsed, 1 - conflict, 2 - parsed
+        #[cfg(bpaf_verif)]
+        pub(crate) fn verif_ledger(&self) -> Vec<u8> {
+            self.item_state
+                .iter()
+                .map(|i| match i {
+                    ItemState::Unparsed => 0,
+                    ItemState::Conflict(_) => 1,
+                    ItemState::Parsed => 2,
+                })
+                .collect()
         }
 
         pub(crate) fn pick_winner(&self, other: &Self) -> (bool, Option<usize>) {
@@ -563,6 +610,8 @@ mod inner {
                 .copied()
                 .filter(ItemState::present)
                 .count();
+            #[cfg(bpaf_verif)]
+            self.verif_check("set_scope");
         }
 
         #[cfg(feature = "autocomplete")]
